@@ -124,7 +124,7 @@ def run_history(case):
     corpus, nmcompare, nmref, semeq, C07 = _W['corpus'], _W['nmcompare'], _W['nmref'], _W['semeq'], _W['C07']
     out = dict(case=case, results=[], status='ok', queries=0, solver_s=0.0, stats={})
     try:
-        m = corpus.load(os.path.join(corpus.TESTDATA, start))
+        m = C07.get_start(start) if start.startswith('gen:') else corpus.load(os.path.join(corpus.TESTDATA, start))
     except Exception as e:  # noqa
         out['status'] = f'start-unreadable: {type(e).__name__}'
         return out
@@ -265,7 +265,9 @@ def main():
     cov3 = [(s0, h) for s0 in START[:2] for h in (
         ('cov2_lin', 'cov1_cat2', 'rm_cov2'), ('cov2_lin', 'cov1_cat', 'rm_cov2'), ('cov1_cat2', 'cov2_pw', 'rm_cov1'),
         ('cov2_pw', 'cov1_cat2', 'set_inits'), ('cov1_cat2', 'cov2_lin', 'rm_cov1'), ('cov2_lin', 'cov1_cat2', 'fix_first'))]
-    cases = cases[:40] + sib + cov3 + cases[40:]
+    # generated start model: a statement with an explicit `ELSE X = 0` is re-emitted because its thetas are renumbered
+    gen = [('gen:else_zero_periph', h) for h in ((), ('rm_periph',), ('set_inits',), ('add_iiv',), ('rm_periph', 'add_periph'))]
+    cases = cases[:40] + sib + cov3 + gen + cases[40:]
     nproc = int(os.environ.get('VERIF_JOBS', 0)) or min(16, os.cpu_count() or 4)
     t0 = time.time()
     stats = dict(unsat=0, sat_confirmed=0, sat_unreplayable=0, unknown=0, unsupported=0)
